@@ -59,7 +59,21 @@ def sig(fl):
     maxur = [r for r in ("cpu", "mem") if inp["pol"][r] == "maxUsageRequest"]
     nomet = any(hp(p) and p["phase"] in ("Running", "Pending") and not p["metric"] and any(p["req"][r] > 0 for r in maxur)
                 for p in inp["pods"])
-    return "op=%s kind=%s" % (op, "hp-pod-without-metric-under-maxUsageRequest" if nomet else "other")
+    # policy "request": the code subtracts the node reservation only, never the (larger) system usage.
+    # Inputs of this shape are attributed to the recorded finding even if they also have another feature;
+    # a regression elsewhere still shows on the many inputs without this shape.
+    try:
+        for r in ("cpu", "mem"):
+            if (inp["pol"][r] or "usage") == "request":
+                reserved = max(max(inp["cap"][r] - inp["alloc"][r], 0), inp["anno"][r])
+                sysused = inp["sys"][r] + sum(a["use"][r] for a in inp.get("apps", []) if a.get("prio") in ("prod", "mid"))
+                if sysused > reserved:
+                    return "op=%s kind=request-policy-ignores-system-usage-above-reservation" % op
+    except Exception:
+        pass
+    if nomet:
+        return "op=%s kind=hp-pod-without-metric-under-maxUsageRequest" % op
+    return "op=%s kind=other" % op
 
 
 CONF = {
